@@ -200,8 +200,8 @@ func GenStoreWorld(prop string) func(r *engine.PRNG, run int, tier string) *engi
 				emit(engine.Event{Ev: op, N: g.id, I: int64(pickIndex(g)), W: engine.F64(w)})
 			case "addrun":
 				basei := pickIndex(g) &^ 31
-				width := []int64{1, 3, 32, 33, 64}[r.Intn(5)]
-				stride := []int64{1, 5, 7, 31}[r.Intn(4)]
+				width := []int64{1, 3, 32, 33, 64, 700, 4000}[r.Intn(7)]
+				stride := []int64{1, 5, 7, 31, 37}[r.Intn(5)]
 				emit(engine.Event{Ev: "addrun", N: g.id, I: int64(basei), J: int64(r.Range(20, 100)), L: []int64{stride, width}})
 				if hi := basei + int(width) - 1; hi > g.hi {
 					g.hi = hi
